@@ -2,6 +2,7 @@ package main
 
 import (
 	"fmt"
+	"strings"
 	"go/constant"
 	"go/token"
 	"go/types"
@@ -356,7 +357,7 @@ func (i *Interp) mapDelete(m *mapV, key value) {
 	}
 }
 
-func (i *Interp) rangeIter(x value, t types.Type) value {
+func (i *Interp) rangeIter(fr *frame, x value, t types.Type) value {
 	switch x := x.(type) {
 	case *mapV:
 		it := &mapIter{m: x}
@@ -370,7 +371,14 @@ func (i *Interp) rangeIter(x value, t types.Type) value {
 			if b, ok := i.params["__maporder_budget"]; ok {
 				budget = b
 			}
-			if n := len(it.keys); i.params["__maporder"] == 1 && n > 1 && n <= 4 && i.mapOrderForks < budget {
+			inScope := true
+			if i.params["__maporder_scope"] == 1 { // only map ranges written in go-task's own code
+				inScope = fr != nil && fr.fn.Pkg != nil && strings.HasPrefix(fr.fn.Pkg.Pkg.Path(), modulePath)
+				if fr != nil && fr.fn.Pkg == nil && fr.fn.Parent() != nil && fr.fn.Parent().Pkg != nil {
+					inScope = strings.HasPrefix(fr.fn.Parent().Pkg.Pkg.Path(), modulePath)
+				}
+			}
+			if n := len(it.keys); i.params["__maporder"] == 1 && inScope && n > 1 && n <= 4 && i.mapOrderForks < budget {
 				i.mapOrderForks++
 				for k := 0; k < n-1; k++ {
 					c := i.ex.choose(n-k, "map-order")
